@@ -618,7 +618,6 @@ func parseOut(path, shard string) (st *checks.Stats, samples []map[string]any, v
 var (
 	rePanic = regexp.MustCompile(`(?m)^panic: (.*)$`)
 	reFatal = regexp.MustCompile(`(?m)^fatal error: (.*)$`)
-	reFrame = regexp.MustCompile(`(?m)^github\.com/ddddddO/gtree[./]([^\s(]+(?:\([^)]*\))?[^\s(]*)\(`)
 )
 
 // classifyDeath reduces a dead worker's stderr to (clause, signature).
@@ -645,8 +644,14 @@ func classifyDeath(stderr string) (string, string) {
 	if at < 0 {
 		at = 0
 	}
-	if m := reFrame.FindStringSubmatch(stderr[at:]); m != nil {
-		frame = m[1]
+	for _, l := range strings.Split(stderr[at:], "\n") {
+		if strings.HasPrefix(l, "github.com/ddddddO/gtree") {
+			if i := strings.LastIndexByte(l, '('); i > 0 {
+				l = l[:i]
+			}
+			frame = strings.TrimLeft(strings.TrimPrefix(l, "github.com/ddddddO/gtree"), "./")
+			break
+		}
 	}
 	return clause, msg + " @" + frame
 }
@@ -740,6 +745,9 @@ func raceSig(report string) string {
 // replay
 
 func runReplay(path string) int {
+	if abs, err := filepath.Abs(path); err == nil {
+		path = abs
+	}
 	b, err := os.ReadFile(path)
 	if err != nil {
 		fmt.Println("ERROR", err)
